@@ -236,6 +236,21 @@ func execPublic(ip *interp.Interpreter, s RunSpec) (res outcome) {
 	return
 }
 
+func execProgram(prog *parser.Program, s RunSpec) (res outcome) {
+	var out bytes.Buffer
+	defer func() {
+		if r := recover(); r != nil {
+			res = outcome{Out: out.String(), Panic: fmt.Sprint(r)}
+		}
+	}()
+	st, err := interp.ExecProgram(prog, s.config(strings.NewReader(s.Input), &out))
+	res = outcome{Out: out.String(), Status: st}
+	if err != nil {
+		res.Err = err.Error()
+	}
+	return
+}
+
 func parse(name string) *parser.Program {
 	prog, err := parser.ParseProgram([]byte(progSrc[name]), nil)
 	if err != nil {
@@ -361,7 +376,7 @@ func genCases(o hx.Opts, r *hx.Rand) []Case {
 	if n == 0 {
 		n = 1200
 		if o.Tier == "thorough" {
-			n = 40000
+			n = 20000
 		}
 	}
 	for i := 0; i < n; i++ {
@@ -480,6 +495,14 @@ func searchOne(c Case, rep *hx.Report, check bool) (hist []outcome) {
 	fresh, _ := interp.New(prog)
 	want := execPublic(fresh, c.Probe)
 	rep.SearchEvals++
+	// New + Execute on a new interpreter = ExecProgram (the reference the property names)
+	if c.Probe.Ctx == "" {
+		if ep := execProgram(prog, c.Probe); ep != want {
+			js, _ := json.Marshal(c.Probe)
+			rep.Fail(hx.Failure{Class: "execprogram:" + firstDiff(ep, want), Oracle: "New + Execute = ExecProgram on the same Config",
+				Detail: map[string]any{"probe": json.RawMessage(js), "program": progSrc[c.Prog], "ExecProgram": ep.String(), "New+Execute": want.String()}})
+		}
+	}
 	if got == want {
 		return
 	}
